@@ -647,6 +647,17 @@ PLANS["X03"] = dict(
     )],
 )
 
+PLANS["X05"] = dict(
+    level_text="growth: plugin/proto codecs (key specs, hash and signing algorithms, RequestError JSON) as total functions with inverse laws, tied to the round-trip tables of Notation.tla",
+    level_note="not a listed property", rule="all inputs of the codec alphabets", exhaustive=True,
+    phases=[dict(
+        name="codecs",
+        gen=dict(module="MC_ProtoCodec", cfg=mc_cfg(["Inv_Total", "Inv_Emit"]), select=take_all),
+        drive=dict(driver="protocodec"),
+        validate=dict(module="Trace_ProtoCodec", cfg=trace_cfg()),
+    )],
+)
+
 PLANS["X02"] = dict(
     level_text="growth: unusable plugins incl. malformed plugin attributes fail closed", level_note="not a listed property", rule="24 maps x 12 situations", exhaustive=True,
     phases=[dict(
